@@ -104,9 +104,9 @@ func checkParse(r *report.Run, class, s string, st *parseStats) {
 			st.rejectedMember++
 		}
 	}
-	if r.NeedSample() && len(s) > 30 && class != "base" {
+	if s == "01234567-89ab-cdéf-fedc-ba9876543210" || s == "-01234567-89ab-cdef-fedc-ba98765432-10" {
 		_, err := gocql.ParseUUID(s)
-		r.Sample(map[string]interface{}{"suite": "parser-mutations", "class": class, "input": s, "member": member, "accepted": err == nil})
+		sample(r, "parser-mutations", map[string]interface{}{"class": class, "input": s, "member": member, "accepted": err == nil})
 	}
 }
 
@@ -181,8 +181,8 @@ func suitePrintParse(r *report.Run) {
 				r.Violation("print-parse:encoding/json", fmt.Sprintf("UUID %x -> %s -> %+v err=%v", u[:], jb, w, err), replay)
 			}
 		})
-		if r.NeedSample() && n%997 == 5 {
-			r.Sample(map[string]interface{}{"suite": "print-parse", "uuid": replay, "printed": s})
+		if n%997 == 5 {
+			sample(r, "print-parse", map[string]interface{}{"uuid": replay, "printed": s})
 		}
 	}
 	for _, fill := range fills {
@@ -201,6 +201,16 @@ func suitePrintParse(r *report.Run) {
 						v := u
 						v[q] = b
 						check(v)
+						if !r.Thorough() {
+							continue
+						}
+						for q3 := q + 1; q3 < 16; q3++ { // thorough: a third position
+							for _, c := range alphabet {
+								w := v
+								w[q3] = c
+								check(w)
+							}
+						}
 					}
 				}
 			}
